@@ -1,5 +1,6 @@
 (* C15 — eval executes the instruction it is given, here and now. *)
 From Lace Require Import Word Machine Isa Vm VmProofs Asm AsmProofs Dbg DbgProofs EvalProofs.
+From Lace Require Examples.
 Open Scope N_scope.
 
 (** An allowed, well-formed instruction is resolved, emitted for the CURRENT PC and executed on the
@@ -55,3 +56,21 @@ Theorem C15_surplus : forall sym t r extra srclen s toks2 te,
   parse_simple sym (t :: r) srclen = Err E_unexpected (toffs extra) (tlen extra).
 Proof. exact parse_simple_surplus. Qed.
 Print Assumptions C15_surplus.
+
+(** Non-vacuity: `add r1 r1 #3` passes every stage named in C15_eval (word x1263); `halt` is refused. *)
+Example C15_nonvacuous :
+  match lex_simple false (S (length Examples.ex_eval_text)) Examples.ex_eval_text 0 nil with
+  | Ok toks =>
+      match parse_simple nil toks (bytes Examples.ex_eval_text) with
+      | Ok s =>
+          allowed s /\
+          match backpatch_stmt nil s with
+          | Ok s' => emit (mkLine (wrap (s_pc Examples.ex_state + 65536 - s_orig Examples.ex_state)) s' 0 0) = Ok 4707
+          | _ => False
+          end
+      | _ => False
+      end
+  | _ => False
+  end /\
+  exists line, eval Examples.ex_env Examples.ex_state (104 :: 97 :: 108 :: 116 :: nil) = EvalRefused line.
+Proof. split; [exact Examples.ex_eval_allowed|exact Examples.ex_eval_refused]. Qed.
